@@ -226,6 +226,12 @@ func implC20(line string) string {
 		}
 		base[i] = runOne(bm, progs[i], shared[i], tmpl, reps)
 	}
+	if tmpl != nil {
+		// from here on the template carries an interrupt channel with a halting function waiting in it: it is
+		// the TEMPLATE's; no copy may consume it (a copy has a handle, hence a channel, of its own)
+		tmpl.Interrupt = make(chan func(), 1)
+		tmpl.Interrupt <- func() { panic("interrupt-meant-for-the-template") }
+	}
 	before := raceLogSize()
 	got := make([]string, n)
 	rounds := []int{0, 1, 2}
@@ -260,6 +266,9 @@ func implC20(line string) string {
 	race := "norace"
 	if raceLogSize() > before {
 		race = "race:" + raceLogTail(before)
+	}
+	if diff == "" && tmpl != nil && len(tmpl.Interrupt) != 1 {
+		diff = "differs(template-interrupt-consumed-by-a-copy)"
 	}
 	if diff == "" {
 		diff = "same"
